@@ -117,6 +117,35 @@ func (m *C17) After(w *world.World, a *world.Action, r *world.StepResult) *Viola
 			return violf(P, "stale-channel-index", "channel index maps %s to consumer %s, which is not bound to it", e.ChannelId, e.ConsumerId)
 		}
 	}
+	// the provider completes the CCV handshake for at most one channel per light client
+	openOn := map[string][]string{}
+	endsOn := map[string]int{}
+	for _, ic := range w.P.PApp.IBCKeeper.ChannelKeeper.GetAllChannels(ctx) {
+		if ic.PortId != ccvtypes.ProviderPortID {
+			continue
+		}
+		under, ok := clientOfChannel(w, ccvtypes.ProviderPortID, ic.ChannelId)
+		if !ok {
+			continue
+		}
+		if ic.State == channeltypes.OPEN || ic.State == channeltypes.TRYOPEN {
+			endsOn[under]++
+		}
+		if ic.State == channeltypes.OPEN {
+			openOn[under] = append(openOn[under], ic.ChannelId)
+		}
+	}
+	for cl, chs := range openOn {
+		if len(chs) > 1 {
+			return violf(P, "two-open-channels", "the provider has %d open CCV channels %v on light client %s", len(chs), chs, cl)
+		}
+	}
+	for _, n := range endsOn {
+		if n > 1 {
+			m.compete = true
+			w.Label("concurrent-ccv-handshakes")
+		}
+	}
 	// packets on a channel belong to the consumer launched with the underlying client: the relayer attributes
 	// provider packets by channel -> client, and each consumer chain must only ever receive its own (C01 checks the content)
 	return nil
